@@ -92,7 +92,7 @@ pub fn run(tier: Tier) -> i32 {
             let mut e = base.clone();
             e.condition.set_gv_weight(0, w0);
             e.condition.set_gv_weight(1, w1);
-            let w = w0;
+            let _ = w0;
             rep.eval(1);
             rep.distinct(fnv(format!("{}|{}|{}|{}", k, wi, w0, w1).as_bytes()));
             let rp = json!({"voice": if k == 0 { "V0".to_string() } else if k >= 100 { format!("V0 with GV_OFF_CONTEXT {:?}", gv_off) } else { format!("P{}(V0)", k) }, "labels": u, "gv_weight": [w0, w1]});
